@@ -297,6 +297,8 @@ def run(ctx):
                             for (m2, lab) in t.succ:
                                 if lab == "false":
                                     skip.add((t, m2, lab))
+        # ... or the very test that guards the open is repeated around the close (same condition, operands never assigned)
+        skip |= set(cfg.correlated_skip_edges(cfg.node_of(o)))
         ok1 = all(cfg.exit not in cfg.reachable_from(m, avoid=closes, skip_edges=skip) and cfg.raise_exit not in cfg.reachable_from(m, avoid=closes, skip_edges=skip) for m in after if m not in closes)
         # the close must not be skipped by a guard other than the "we opened it" flag: weaker check - a finally exists
         ctx.check("C05.R4", "is_avro: file opened here is closed on every exit (normal and exceptional)", ok1 and bool(closes), f.where(o), "is_avro: open(...) without close on all exits", "a path from open() to a function exit does not pass through close()")
